@@ -11,7 +11,7 @@ from fractions import Fraction
 import numpy as np
 from common import *
 
-IMPORTS = ("From CV Require Import Base.Cmp Base.QcLin Model.C13_Geom Model.C13_Float.\n"
+IMPORTS = ("From CV Require Import Base.Cmp Base.QcLin Model.C13_Geom Model.C13_Float Model.C13_Eq.\n"
            "From Coq Require Import QArith Qcanon PrimFloat.")
 RULE = ("explicit lattice: geometry class (Continuous1D, Discrete, default 1D/2D, Continuous2D, Image2D C/F/visual_only, "
         "MappedGeometry with/without imap over five inner classes, KLExpansion N x num_modes x decay x normalizer, StepExpansion "
@@ -88,6 +88,67 @@ def step_idx_term(d):
     return "(step_indices_F %s %s)" % (clist([cfloat(float.fromhex(h)) for h in d["grid"]]), cnat(d["n_steps"]))
 
 
+# ------------------------------------------------------------------------------------------------
+# MappedGeometry: the user-supplied elementwise map / imap.  A mapped descriptor carries either the affine pair
+# ("a","b": x -> a*x+b, imap y -> (y-b)/a) or "fmap": {"kind":"moebius","a","b","c","d"} (x -> (a x+b)/(c x+d), rational,
+# imap y -> (d y-b)/(-c y+a)) or {"kind":"poly","coefs":[c0,c1,...]} (x -> c0+c1 x+..., no inverse: imap must be False)
+# ------------------------------------------------------------------------------------------------
+def m_kind(m):
+    return m.get("fmap", {}).get("kind", "affine")
+
+
+def m_apply(m, v):
+    """the map on an exact Fraction"""
+    k = m_kind(m)
+    if k == "affine":
+        return frac(m["a"]) * v + frac(m["b"])
+    f = m["fmap"]
+    if k == "moebius":
+        return (frac(f["a"]) * v + frac(f["b"])) / (frac(f["c"]) * v + frac(f["d"]))
+    return sum(frac(c) * v ** i for i, c in enumerate(f["coefs"]))
+
+
+def m_inv(m, v):
+    k = m_kind(m)
+    if k == "affine":
+        return (v - frac(m["b"])) / frac(m["a"])
+    f = m["fmap"]
+    assert k == "moebius"
+    return (frac(f["d"]) * v - frac(f["b"])) / (-frac(f["c"]) * v + frac(f["a"]))
+
+
+def m_py(m):
+    """the Python callables handed to cuqi.geometry.MappedGeometry"""
+    k = m_kind(m)
+    if k == "affine":
+        a, b = m["a"], m["b"]
+        return (lambda x, a=a, b=b: a * x + b), (lambda y, a=a, b=b: (y - b) / a)
+    f = m["fmap"]
+    if k == "moebius":
+        a, b, c, d = f["a"], f["b"], f["c"], f["d"]
+        return (lambda x: (a * x + b) / (c * x + d)), (lambda y: (d * y - b) / (-c * y + a))
+    cs = list(f["coefs"])
+    return (lambda x: sum(c * x ** i for i, c in enumerate(cs))), None
+
+
+def m_coq(m):
+    """(map, imap) as Coq functions Qc -> Qc"""
+    k = m_kind(m)
+    if k == "affine":
+        return ("(fun x => %s * x + %s)%%Qc" % (cqc(m["a"]), cqc(m["b"])), "(fun y => (y - %s) / %s)%%Qc" % (cqc(m["b"]), cqc(m["a"])))
+    f = m["fmap"]
+    if k == "moebius":
+        return ("(fun x => (%s * x + %s) / (%s * x + %s))%%Qc" % tuple(cqc(f[t]) for t in "abcd"),
+                "(fun y => (%s * y - %s) / (- %s * y + %s))%%Qc" % (cqc(f["d"]), cqc(f["b"]), cqc(f["c"]), cqc(f["a"])))
+    terms = " + ".join("%s * Qcpower x %d%%nat" % (cqc(c), i) for i, c in enumerate(f["coefs"]))
+    return ("(fun x => %s)%%Qc" % terms, None)
+
+
+def m_exact(m):
+    """is the float evaluation of the map/imap exact on small integers?  (affine with dyadic coefficients, integer polynomials)"""
+    return m_kind(m) != "moebius"
+
+
 def enc_geom(d):
     k = d["kind"]
     if k in ("cont1d", "default1d"):
@@ -99,7 +160,8 @@ def enc_geom(d):
     if k in ("image", "default2d"):
         return "(GImage %s %s %s %s)" % (cnat(d["r"]), cnat(d["c"]), "OF" if d.get("order", "C") == "F" else "OC", cbool(d.get("visual", False)))
     if k == "mapped":
-        return "(GMapped %s %s %s %s)" % (enc_geom(d["inner"]), cqc(d["a"]), cqc(d["b"]), cbool(d["imap"]))
+        fm, fi = m_coq(d)
+        return "(GMapped %s %s %s)" % (enc_geom(d["inner"]), fm, ("(Some %s)" % fi) if (d["imap"] and fi) else "None")
     if k == "kl":
         c = kl_cert(d)
         return "(GKL %s %s %s %s %s %s)" % (cnat(d["N"]), copt(d["num_modes"], cnat), clist([cqc(v) for v in c["coefs"]]), cqc(d["tau"]),
@@ -150,9 +212,8 @@ def build_geom(d):
     if k == "default2d":
         return G._DefaultGeometry2D(im_shape=(d["r"], d["c"]), visual_only=d.get("visual", False))
     if k == "mapped":
-        a, b = d["a"], d["b"]
-        return G.MappedGeometry(build_geom(d["inner"]), map=lambda x, a=a, b=b: a * x + b,
-                                imap=(lambda y, a=a, b=b: (y - b) / a) if d["imap"] else None)
+        fmap, fimap = m_py(d)
+        return G.MappedGeometry(build_geom(d["inner"]), map=fmap, imap=fimap if d["imap"] else None)
     if k == "kl":
         return G.KLExpansion(np.linspace(0, 1, d["N"]), decay_rate=d["decay"], normalizer=d["tau"], num_modes=d["num_modes"])
     if k == "step":
@@ -173,14 +234,14 @@ CLASSNAME = {"cont1d": "Continuous1D", "default1d": "_DefaultGeometry1D", "discr
 def gcell(d):
     k = d["kind"]
     if k == "mapped":
-        return "mapped%s(%s)" % ("" if d["imap"] else "-noimap", gcell(d["inner"]))
+        return "mapped%s%s(%s)" % ({"affine": "", "moebius": "-moebius", "poly": "-poly"}[m_kind(d)], "" if d["imap"] else "-noimap", gcell(d["inner"]))
     if k in ("image", "default2d"):
         return k + ("-visual" if d.get("visual") else "-" + d.get("order", "C"))
     return k
 
 
 def is_exact(d):
-    return innermost(d)["kind"] not in ("kl",)
+    return innermost(d)["kind"] not in ("kl",) and all(m_exact(m) for m in chain_of(d))
 
 
 def is_identity(d):
@@ -248,7 +309,10 @@ def doc_par2fun_single(d, p):
         inner = doc_par2fun_single(d["inner"], p)
         if inner is None:
             return None
-        return frac(d["a"]) * inner + frac(d["b"])
+        out = np.empty(inner.shape, dtype=object)
+        for ix in np.ndindex(inner.shape):
+            out[ix] = m_apply(d, inner[ix])
+        return out
     if k == "step":
         N, n = len(d["grid"]), d["n_steps"]
         return np.array([p[ideal_step_of_node(N, n, t)] for t in range(N)], dtype=object)
@@ -396,7 +460,7 @@ def prop_check_map(d, g, mapname, x, y):
             doc = doc_par2fun_single(d, [frac(v) for v in c0])
             if doc is not None:
                 docf = np.array([float(v) for v in doc.ravel()]).reshape(doc.shape)
-                if not same(y0, docf, True):
+                if not same(y0, docf, exact):
                     return "par2fun places parameters differently from the documentation: got %s, documented %s" % (y0.tolist(), docf.tolist())
     # documented projection of StepExpansion.fun2par: p[i] = mean / max / min of the function values at the nodes of step i
     # (through MappedGeometry: of imap(f)); stated on the ideal partition, so only where the implementation's partition is it
@@ -406,7 +470,7 @@ def prop_check_map(d, g, mapname, x, y):
         f0 = np.asarray(cols[0], dtype=float)
         vals = [frac(v) for v in f0]
         for m in chain_of(d):
-            vals = [(v - frac(m["b"])) / frac(m["a"]) for v in vals]
+            vals = [m_inv(m, v) for v in vals]
         want_p = []
         for i in range(n):
             sel = [vals[t] for t in range(N) if ideal_step_of_node(N, n, t) == i]
@@ -542,6 +606,26 @@ def shape_case(d):
     return Case(expr=expr, meta={"op": "shapes", "geom": d}, cell="shapes/" + gcell(d), impl_fail=fail, signature=sig, kind="DECISION")
 
 
+def kl_regrid_case(d_old, d_new, mapname, x):
+    """KLExpansion built on d_old's grid, used (coefficient caches filled), then its grid attribute is replaced by d_new's:
+    the maps must be those of KLExpansion built on the new grid (model: GKL of d_new)"""
+    g = build_geom(d_old)
+    with warnings.catch_warnings():
+        warnings.simplefilter("ignore")
+        g.fun2par(g.par2fun(np.ones(g.par_dim)))
+        g.grid = np.linspace(0, 1, d_new["N"])
+    x = np.array(x, dtype=float)
+    y = call(g, mapname, x)
+    fresh = call(build_geom(d_new), mapname, x)
+    expr = "check_map false %s %s %s %s" % (MAPCOQ[mapname], enc_geom(d_new), carr(x), copt(y, carr))
+    fail = None
+    if (y is None) != (fresh is None) or (y is not None and not same(y, fresh, False)):
+        fail = "after replacing the grid of a used KLExpansion, %s differs from a geometry built on the new grid: %s vs %s" % (
+            mapname, None if y is None else y.tolist(), None if fresh is None else fresh.tolist())
+    return Case(expr=expr, meta={"op": "kl_regrid", "old": d_old, "new": d_new, "map": mapname, "x": x.tolist()}, cell="kl/regrid/" + mapname,
+                kind="DECISION", impl_fail=fail, signature="KLExpansion.coefs|stale-cache" if fail else "")
+
+
 def kl_cert_case(d):
     c = kl_cert(d)
     td = int(round(2 * d["decay"]))
@@ -556,7 +640,7 @@ def step_init_case(N, a, b, n, cellname):
     g = G.StepExpansion(grid, n_steps=n)
     idx = [list(map(int, i)) for i in g._indices]
     if step_fixed():
-        expr = "check_step_init_ideal %s %s %s" % (cnat(N), cnat(n), clist([cnatl(s) for s in idx]))
+        expr = "check_step_init_fixed %s %s %s" % (cnat(N), cnat(n), clist([cnatl(s) for s in idx]))
     else:
         expr = "check_step_init_F %s %s %s" % (clist([cfloat(v) for v in grid]), cnat(n), clist([cnatl(s) for s in idx]))
     sd = step_defect(d)
@@ -691,6 +775,219 @@ def cuqiarray_case(d, x, is_par, to_par):
 
 
 # ------------------------------------------------------------------------------------------------
+# Geometry.__eq__ / _all_values_equal  (Model/C13_Eq.v)
+# ------------------------------------------------------------------------------------------------
+_EQ_STRICT = None
+EQ_BROADCAST = "Geometry.__eq__|array_equiv-broadcast"
+EQ_CACHE = "KLExpansion.__eq__|cached-coefs"
+
+
+def eq_strict():
+    """which comparison is in the tree: np.array_equiv (False, today) or the repaired np.array_equal (True)"""
+    global _EQ_STRICT
+    if _EQ_STRICT is None:
+        import cuqi.geometry as G
+        _EQ_STRICT = not (G.Continuous1D(np.array([2.0])) == G.Continuous1D(np.array([2.0, 2.0, 2.0])))
+    return _EQ_STRICT
+
+
+def build_geom_eq(d, shared):
+    """like build_geom, but callables of MappedGeometry are shared between the two sides when the descriptors agree"""
+    if d["kind"] == "mapped":
+        import cuqi.geometry as G
+        key = json.dumps({k: v for k, v in d.items() if k != "inner"}, sort_keys=True)
+        if key not in shared:
+            shared[key] = m_py(d)
+        fm, fi = shared[key]
+        return G.MappedGeometry(build_geom_eq(d["inner"], shared), map=fm, imap=fi if d["imap"] else None)
+    return build_geom(d)
+
+
+class _Atoms:
+    def __init__(self):
+        self.t = {}
+
+    def of(self, key):
+        return self.t.setdefault(key, len(self.t))
+
+
+def enc_sval(v, atoms, twin=None):
+    import cuqi.geometry as G
+    if v is None:
+        return "SNone"
+    if isinstance(v, (bool, np.bool_)):
+        return "(SNum %s)" % cqc(int(v))
+    if isinstance(v, (int, float, np.integer, np.floating)):
+        return "(SNum %s)" % cqc(v)
+    if isinstance(v, str):
+        return "(SAtom %s)" % cnat(atoms.of(("str", v)))
+    if isinstance(v, range):
+        v = np.array(list(v), dtype=float)
+    if isinstance(v, np.ndarray):
+        if v.ndim == 0:
+            return "(SNum %s)" % cqc(float(v))
+        return "(SArr %s)" % clist([cqc(x) for x in np.asarray(v, dtype=float).ravel()])
+    if isinstance(v, G.Geometry):
+        # a wrapped geometry: np.array_equiv compares the two objects with their own __eq__ (exercised by its own cases)
+        return "(SAtom %s)" % cnat(atoms.of(("geom", id(v))))
+    return "(SAtom %s)" % cnat(atoms.of(("obj", id(v))))
+
+
+def enc_pval(v, atoms):
+    if isinstance(v, (tuple, list)):
+        return "(PTuple %s)" % clist([enc_sval(x, atoms) for x in v])
+    return "(PS %s)" % enc_sval(v, atoms)
+
+
+def enc_attrs(g, keys, atoms):
+    return clist(["(%s, %s)" % (cnat(keys.of(k)), enc_pval(v, atoms)) for k, v in vars(g).items()])
+
+
+def py_equal_attr(v, w):
+    if isinstance(v, (tuple, list)) and isinstance(w, (tuple, list)):
+        return len(v) == len(w) and all(np.array_equal(x, y) for x, y in zip(v, w))
+    try:
+        return bool(np.array_equal(v, w))
+    except Exception:
+        return False
+
+
+def eq_case(d1, d2, used, cellname):
+    """g1 == g2 for two geometries built from descriptors; `used` = maps of g1 (and/or g2) are called first (fills caches)"""
+    import cuqi.geometry as G
+    shared = {}
+    g1, g2 = build_geom_eq(d1, shared), build_geom_eq(d2, shared)
+    with warnings.catch_warnings():
+        warnings.simplefilter("ignore")
+        for g, u in ((g1, used[0]), (g2, used[1])):
+            if u:
+                try:
+                    p = np.ones(int(g.par_dim))
+                    f = g.par2fun(p)
+                    g.fun_shape
+                    if u > 1:
+                        g.fun2par(f)
+                        g.funvec_shape
+                except Exception:
+                    pass
+        try:
+            obs = bool(g1 == g2)
+        except Exception:
+            obs = None
+    keys, atoms = _Atoms(), _Atoms()
+    # wrapped geometries that compare equal share an atom
+    def attrs(g, other):
+        out = []
+        for k, v in vars(g).items():
+            if isinstance(v, G.Geometry) and k in vars(other) and isinstance(vars(other)[k], G.Geometry):
+                w = vars(other)[k]
+                same_inner = bool(v == w)
+                atoms.t[("geom", id(v))] = atoms.t.get(("geom", id(w)), atoms.of(("geom", min(id(v), id(w))))) if same_inner else atoms.of(("geom", id(v)))
+            out.append((k, v))
+        return out
+    # which __eq__ runs: Python gives priority to the right operand when its type is a proper subclass of the left one's and
+    # overrides __eq__ (the default geometries do); the callee is `S`, its argument `O`
+    swap = type(g2) is not type(g1) and issubclass(type(g2), type(g1)) and type(g2).__eq__ is not type(g1).__eq__
+    S, O = (g2, g1) if swap else (g1, g2)
+    aS = attrs(S, O)
+    aO = attrs(O, S)
+    e1 = clist(["(%s, %s)" % (cnat(keys.of(k)), enc_pval(v, atoms)) for k, v in aS])
+    e2 = clist(["(%s, %s)" % (cnat(keys.of(k)), enc_pval(v, atoms)) for k, v in aO])
+    if isinstance(S, G._DefaultGeometry1D):
+        isinst = type(O) in (S.__class__, G.Continuous1D)
+    elif isinstance(S, G._DefaultGeometry2D):
+        isinst = isinstance(O, (S.__class__, G.Image2D))
+    else:
+        isinst = isinstance(O, S.__class__)
+    if obs is None:
+        expr = "false"
+    else:
+        expr = "check_geom_eq %s %s %s %s %s" % (cbool(eq_strict()), cbool(isinst), e1, e2, cbool(obs))
+    # ---- the property of an equality test, stated independently
+    def py_equal(A, B, strict):
+        """independent re-statement of _all_values_equal with a chosen array comparison"""
+        cmp_ = np.array_equal if strict else np.array_equiv
+        for k, v in vars(A).items():
+            if k not in vars(B):
+                return False
+            w = vars(B)[k]
+            if isinstance(v, (tuple, list)) and isinstance(w, (tuple, list)):
+                if len(v) != len(w) or not all(cmp_(x, y) for x, y in zip(v, w)):
+                    return False
+            elif not cmp_(v, w):
+                return False
+        return True
+    fail, sig = None, ""
+    same_desc = json.dumps(d1, sort_keys=True) == json.dumps(d2, sort_keys=True)
+    if obs is None:
+        fail = "== raised"
+    elif same_desc and not obs:
+        fail = "two geometries built from the same arguments compare unequal (maps called before: %s)" % (used,)
+        differing = [k for k in vars(S) if k not in vars(O) or not py_equal_attr(vars(S)[k], vars(O)[k])]
+        if innermost(d1)["kind"] == "kl" and any(used) and differing and set(differing) <= {"_coefs", "_coefs_inverse"} and d1["kind"] == "kl":
+            sig = EQ_CACHE          # exactly the cache attributes differ (None in one object, computed in the other)
+        elif innermost(d1)["kind"] == "kl" and any(used) and d1["kind"] == "mapped" and differing == ["geometry"]:
+            sig = EQ_CACHE          # ... the same, seen through a MappedGeometry
+    elif obs:
+        try:
+            ps1, ps2 = tuple(g1.par_shape), tuple(g2.par_shape)
+            if ps1 != ps2:
+                fail = "geometries compare equal but report par_shape %s and %s" % (ps1, ps2)
+            else:
+                x = np.arange(1.0, int(np.prod(ps1)) + 1)
+                y1, y2 = call(g1, "par2fun", x), call(g2, "par2fun", x)
+                if (y1 is None) != (y2 is None) or (y1 is not None and not same(y1, y2, True)):
+                    fail = "geometries compare equal but par2fun differs: %s vs %s" % (None if y1 is None else y1.tolist(), None if y2 is None else y2.tolist())
+        except Exception as e:
+            fail = "geometries compare equal but probing raised %r" % (e,)
+        if fail and not eq_strict() and not py_equal(S, O, True) and py_equal(S, O, False):
+            sig = EQ_BROADCAST      # equal only because array_equiv broadcasts shapes
+        elif fail and d1["kind"] == "mapped" and not eq_strict() and innermost(d1).get("gridvals") and innermost(d2).get("gridvals"):
+            sig = EQ_BROADCAST      # ... the same, inside the wrapped geometries
+    if fail and not sig:
+        sig = "%s.__eq__" % CLASSNAME[innermost(d1)["kind"]]
+    return Case(expr=expr, meta={"op": "eq", "d1": d1, "d2": d2, "used": list(used), "cellname": cellname}, cell="eq/" + cellname,
+                kind="DECISION", impl_fail=fail, signature=sig)
+
+
+def eq_cases(ctx, geoms):
+    out = []
+    # every lattice geometry against a twin built from the same arguments, in three histories
+    for d in geoms:
+        if d["kind"] == "kl" and d["num_modes"] == 0:
+            continue
+        for used in ((0, 0), (1, 0), (0, 2)):
+            out.append(eq_case(d, d, used, "%s/twin/%s" % (gcell(d), "fresh" if used == (0, 0) else "used%d%d" % used)))
+    # neighbours: one argument changed
+    pairs = []
+    c1 = lambda **k: dict({"kind": "cont1d"}, **k)
+    pairs += [(c1(n=3), c1(n=4)), (c1(n=4, gridvals=[0.0, 1.0, 2.0, 3.0]), c1(n=4)), (c1(n=4, gridvals=[0.0, 1.0, 2.0, 4.0]), c1(n=4)),
+              (c1(n=1, gridvals=[2.0]), c1(n=3, gridvals=[2.0, 2.0, 2.0])), (c1(n=3, gridvals=[2.0, 2.0, 2.0]), c1(n=1, gridvals=[2.0])),
+              (c1(n=1, gridvals=[0.0]), c1(n=4, gridvals=[0.0, 0.0, 0.0, 0.0])),
+              (c1(n=3), {"kind": "default1d", "n": 3}), ({"kind": "default1d", "n": 3}, c1(n=3)), (c1(n=3), {"kind": "discrete", "n": 3}),
+              ({"kind": "discrete", "n": 2}, {"kind": "discrete", "n": 3}), ({"kind": "discrete", "n": 2, "names": ["alpha", "beta"]}, {"kind": "discrete", "n": 2}),
+              ({"kind": "cont2d", "n1": 2, "n2": 3}, {"kind": "cont2d", "n1": 3, "n2": 2}),
+              ({"kind": "cont2d", "n1": 1, "n2": 3, "gridvals": [[1.0], [0.0, 1.0, 2.0]]}, {"kind": "cont2d", "n1": 3, "n2": 3, "gridvals": [[1.0, 1.0, 1.0], [0.0, 1.0, 2.0]]}),
+              ({"kind": "image", "r": 2, "c": 3, "order": "C", "visual": False}, {"kind": "image", "r": 2, "c": 3, "order": "F", "visual": False}),
+              ({"kind": "image", "r": 2, "c": 3, "order": "C", "visual": False}, {"kind": "image", "r": 3, "c": 2, "order": "C", "visual": False}),
+              ({"kind": "image", "r": 2, "c": 2, "order": "C", "visual": False}, {"kind": "image", "r": 2, "c": 2, "order": "C", "visual": True}),
+              ({"kind": "default2d", "r": 2, "c": 3, "visual": False}, {"kind": "image", "r": 2, "c": 3, "order": "C", "visual": False}),
+              ({"kind": "image", "r": 2, "c": 3, "order": "C", "visual": False}, {"kind": "default2d", "r": 2, "c": 3, "visual": False})]
+    kl = lambda **k: dict({"kind": "kl", "N": 5, "num_modes": 3, "decay": 2.0, "tau": 4.0}, **k)
+    pairs += [(kl(), kl(num_modes=2)), (kl(), kl(decay=1.5)), (kl(), kl(tau=1.0)), (kl(), kl(N=6)), (kl(num_modes=None), kl(num_modes=5)), (kl(num_modes=7), kl(num_modes=5))]
+    sg = hexgrid(np.linspace(0.0, 1.0, 7))
+    st = lambda **k: dict({"kind": "step", "grid": sg, "n_steps": 3, "proj": "mean"}, **k)
+    pairs += [(st(), st(n_steps=2)), (st(), st(proj="max")), (st(), st(grid=hexgrid(np.linspace(0.0, 2.0, 7)))), (st(), st(grid=hexgrid(np.linspace(0.0, 1.0, 9))))]
+    mp = lambda **k: dict({"kind": "mapped", "inner": c1(n=3), "a": 2.0, "b": 0.0, "imap": True}, **k)
+    pairs += [(mp(), mp(a=3.0)), (mp(), mp(imap=False)), (mp(), mp(inner=c1(n=4))), (mp(), mp(inner={"kind": "discrete", "n": 3})),
+              (mp(inner=c1(n=1, gridvals=[2.0])), mp(inner=c1(n=3, gridvals=[2.0, 2.0, 2.0])))]
+    for (a, b) in pairs:
+        for used in ((0, 0), (2, 1)):
+            out.append(eq_case(a, b, used, "%s-vs-%s/%s" % (gcell(a), gcell(b), "fresh" if used == (0, 0) else "used")))
+    return out
+
+
+# ------------------------------------------------------------------------------------------------
 # the lattice
 # ------------------------------------------------------------------------------------------------
 FIXED_AB = [(0.0, 1.0), (0.1, 0.7), (-1.0, 1.0), (0.3, 2.9), (1e-3, 1e3)]
@@ -721,6 +1018,15 @@ def geoms_lattice(ctx):
         L.append({"kind": "mapped", "inner": inn, "a": coefs[(i + 1) % 5][0], "b": coefs[(i + 2) % 5][1], "imap": False})
     L.append({"kind": "mapped", "inner": {"kind": "mapped", "inner": {"kind": "cont2d", "n1": 2, "n2": 2}, "a": 2.0, "b": 1.0, "imap": True},
               "a": -0.5, "b": 0.25, "imap": True})
+    # non-affine user maps: a Moebius (rational) pair that is inverse away from its pole (never hit on integer data), and
+    # integer polynomials (no inverse offered)
+    moeb = {"kind": "moebius", "a": 2.5, "b": 1.0, "c": 1.0, "d": 0.5}
+    for inn in inners[:4] + [{"kind": "image", "r": 3, "c": 2, "order": "C", "visual": False}]:
+        L.append({"kind": "mapped", "inner": inn, "fmap": moeb, "imap": True})
+    L.append({"kind": "mapped", "inner": inners[4], "fmap": {"kind": "moebius", "a": 1.125, "b": 2.0, "c": 0.25, "d": 3.125}, "imap": True})
+    L.append({"kind": "mapped", "inner": {"kind": "mapped", "inner": inners[1], "fmap": moeb, "imap": True}, "a": 0.5, "b": -1.0, "imap": True})
+    for inn, cs in ((inners[0], [1.0, -2.0, 0.0, 1.0]), (inners[1], [0.0, 0.0, 1.0]), (inners[2], [-1.0, 0.5, 0.25]), (inners[4], [2.0, 0.0, -1.0, 0.0, 0.5])):
+        L.append({"kind": "mapped", "inner": inn, "fmap": {"kind": "poly", "coefs": cs}, "imap": False})
     # KL: N x num_modes x decay x normalizer
     kl = []
     for N in ((1, 2, 3, 5, 8) if not ctx.thorough else (1, 2, 3, 4, 5, 6, 8, 9)):
@@ -759,8 +1065,9 @@ def spread(cases):
 
 
 def run(ctx):
-    global _STEP_FIXED
+    global _STEP_FIXED, _EQ_STRICT
     _STEP_FIXED = None
+    _EQ_STRICT = None
     import cuqi
     rng = ctx.rng
     cases = []
@@ -773,6 +1080,12 @@ def run(ctx):
     for d in kls:
         if d["num_modes"] != 0:
             cases.append(kl_cert_case(d))
+    for (N1, N2, m) in ((6, 4, None), (4, 6, None), (6, 3, 5), (3, 6, 5), (5, 5, 3)):
+        d_old = {"kind": "kl", "N": N1, "num_modes": m, "decay": 2.0, "tau": 4.0}
+        d_new = dict(d_old, N=N2)
+        for mapname, n_in in (("par2fun", doc_par_shape(d_new)[0]), ("fun2par", N2)):
+            cases.append(kl_regrid_case(d_old, d_new, mapname, rand_arr(rng, (n_in,))))
+            cases.append(kl_regrid_case(d_old, d_new, mapname, rand_arr(rng, (n_in, 2))))
 
     # ---- 2. StepExpansion: _indices bit-exact, every n_steps, fixed + seed-dependent grids ---------------
     Nmax = ctx.n(20, 40)
@@ -794,7 +1107,7 @@ def run(ctx):
         N = rng.randint(1, 9)
         x0, h = rng.randint(-8, 8) / 4.0, rng.choice([0.25, 0.5, 1.0])
         gridv = [x0 + h * k for k in range(N)]
-        kind = rng.choice(["too-many-steps", "irregular", "one-node", "slightly-irregular"])
+        kind = rng.choice(["too-many-steps", "irregular", "one-node", "slightly-irregular", "mildly-irregular"])
         n = rng.choice([1, 2, 4])
         if kind == "too-many-steps":
             n = N + rng.randint(1, 3)
@@ -802,6 +1115,8 @@ def run(ctx):
             gridv[rng.randint(1, N - 1)] += h * rng.choice([0.25, -0.25, 0.5])
         elif kind == "one-node":
             gridv = gridv[:1]
+        elif kind == "mildly-irregular" and N >= 3:
+            gridv[rng.randint(1, N - 1)] += h * 2.0 ** -rng.randint(7, 12)      # 0.02% .. 0.8% of the spacing: outside np.allclose's tolerance
         elif kind == "slightly-irregular" and N >= 3:
             gridv[N - 1] += h * 2.0 ** -30       # far inside np.allclose's tolerance
             n = 1
@@ -854,6 +1169,7 @@ def run(ctx):
         cases.append(cuqiarray_case(d, rand_arr(rng, tuple(fs) + (2,)), False, True))
     ctx.note("StepExpansion.__init__ in this tree: %s" % ("node-number partition (fixes/C13_step_partition.diff applied)" if step_fixed()
                                                          else "interval tests on float coordinates (unrepaired)"))
+    cases += eq_cases(ctx, geoms)
     cases = spread(cases)
     return Result(cases=cases, rule=RULE,
                   assumptions=["scipy.fftpack.dst/idst enter the KL model as matrices obtained from scipy on unit vectors; the model checks dst*idst = 2N*I on them (1e-9) and then uses them: KL values are compared within 1e-9",
@@ -882,6 +1198,10 @@ def _recase(meta):
         return cuqiarray_case(meta["geom"], np.array(meta["x"], dtype=float), meta["is_par"], meta["to_par"])
     if op == "kl_cert":
         return kl_cert_case(meta["geom"])
+    if op == "kl_regrid":
+        return kl_regrid_case(meta["old"], meta["new"], meta["map"], np.array(meta["x"], dtype=float))
+    if op == "eq":
+        return eq_case(meta["d1"], meta["d2"], tuple(meta["used"]), meta.get("cellname", "replay"))
     return None
 
 
@@ -922,6 +1242,11 @@ WITNESSES = {
         {"op": "map", "geom": {"kind": "kl", "N": 3, "num_modes": 1, "decay": 1.0, "tau": 1.0}, "map": "fun2par", "x": [1.0, 2.0, 3.0], "form": "single"},
     "KLExpansion.par2fun|" + SQ:
         {"op": "map", "geom": {"kind": "kl", "N": 1, "num_modes": None, "decay": 1.0, "tau": 1.0}, "map": "par2fun", "x": [2.0], "form": "single"},
+    EQ_BROADCAST:
+        {"op": "eq", "d1": {"kind": "cont1d", "n": 1, "gridvals": [2.0]}, "d2": {"kind": "cont1d", "n": 3, "gridvals": [2.0, 2.0, 2.0]}, "used": [0, 0], "cellname": "witness"},
+    EQ_CACHE:
+        {"op": "eq", "d1": {"kind": "kl", "N": 5, "num_modes": 2, "decay": 2.0, "tau": 4.0}, "d2": {"kind": "kl", "N": 5, "num_modes": 2, "decay": 2.0, "tau": 4.0},
+         "used": [1, 0], "cellname": "witness"},
     "StepExpansion.fun2par|" + SQ:
         {"op": "map", "geom": {"kind": "step", "grid": hexgrid(np.linspace(0.0, 1.0, 4)), "n_steps": 1, "proj": "mean"}, "map": "fun2par",
          "x": [1.0, 2.0, 3.0, 6.0], "form": "single"},
